@@ -10,7 +10,7 @@ CONSTANT MaxDepth
 
 Wf1(n) == [nodes |-> 1..n, comp |-> [k \in 1..n |-> 1], data |-> [k \in 1..n |-> 0],
            edges |-> {}, vol |-> EmptyFn, torder |-> [k \in 1..n |-> k]]
-Ob(dur, ing, n) == [est |-> 0, dur |-> dur, demand |-> 1, ing |-> ing, rate |-> 1] @@ Wf1(n)
+Ob(dur, ing, n) == [est |-> 0, estT |-> 0, dur |-> dur, demand |-> 1, ing |-> ing, rate |-> 1] @@ Wf1(n)
 ApiCfg ==
     [ K |-> 1,
       mach |-> ("m0" :> [cpu |-> 1, bw |-> 1] @@ "m1" :> [cpu |-> 1, bw |-> 1] @@ "m2" :> [cpu |-> 1, bw |-> 1]),
